@@ -147,30 +147,33 @@ def runTrials (sim : Sim) : List TrialIn → State → List String → List Stri
 def sect (ws : List String) (tag : String) (stop : List String) : List String :=
   ((ws.dropWhile (· ≠ tag)).drop 1).takeWhile (fun w => !stop.contains w)
 
+/-- parse `<ens> A … T … N … M … H … E … R …` into the simulation, its validated initial state and the trials -/
+def parseCase (ens : String) (rest : List String) : Option (Sim × State × List TrialIn) := do
+  let tags := ["A", "T", "N", "M", "H", "E", "R"]
+  let ens ← ensOf ens
+  let (cellS, fixedS, rowsS) ← match sect rest "A" tags with | [a, b, c] => some (a, b, c) | _ => none
+  let cell ← v3OfList (← ints cellS)
+  let fixed ← if fixedS = "none" then some none else (nats fixedS).map some
+  let rows ← rowsOf rowsS
+  let template ← match sect rest "T" tags with | [t] => rowsOf t | _ => none
+  let nExch ← match sect rest "N" tags with | [n] => n.toInt? | _ => none
+  let lastMom ← match sect rest "M" tags with | [m] => (ints m).bind v3s | _ => none
+  let heap ← (sect rest "H" tags).mapM objOf
+  let table ← (sect rest "E" tags).mapM entryOf
+  let trials ← (sect rest "R" tags).mapM trialOf
+  let sim : Sim := { ens := ens, table := table }
+  let s0 : State := { atoms := { rows := rows, cell := cell, fixed := fixed }, heap := heap,
+                      ctx := { template := template, nExch := nExch, lastMom := lastMom,
+                               lastPos := if ens = .base then [] else positions rows,
+                               lastCell := if ens = .isobaric then cell else V3.zero },
+                      inp := {} }
+  pure (sim, s0, trials)
+
 def handle : List String → String
   | "mm" :: ens :: rest =>
-    let tags := ["A", "T", "N", "M", "H", "E", "R"]
-    let r : Option String := do
-      let ens ← ensOf ens
-      let (cellS, fixedS, rowsS) ← match sect rest "A" tags with | [a, b, c] => some (a, b, c) | _ => none
-      let cell ← v3OfList (← ints cellS)
-      let fixed ← if fixedS = "none" then some none else (nats fixedS).map some
-      let rows ← rowsOf rowsS
-      let template ← match sect rest "T" tags with | [t] => rowsOf t | _ => none
-      let nExch ← match sect rest "N" tags with | [n] => n.toInt? | _ => none
-      let lastMom ← match sect rest "M" tags with | [m] => (ints m).bind v3s | _ => none
-      let heap ← (sect rest "H" tags).mapM objOf
-      let table ← (sect rest "E" tags).mapM entryOf
-      let trials ← (sect rest "R" tags).mapM trialOf
-      let sim : Sim := { ens := ens, table := table }
-      let s0 : State := { atoms := { rows := rows, cell := cell, fixed := fixed }, heap := heap,
-                          ctx := { template := template, nExch := nExch, lastMom := lastMom,
-                                   lastPos := if ens = .base then [] else positions rows,
-                                   lastCell := if ens = .isobaric then cell else V3.zero },
-                          inp := {} }
-      let s1 := validate sim s0
-      pure (" | ".intercalate (runTrials sim trials s1 []))
-    r.getD "bad-op"
+    match parseCase ens rest with
+    | some (sim, s0, trials) => " | ".intercalate (runTrials sim trials (validate sim s0) [])
+    | none => "bad-op"
   | _ => "bad-op"
 
 end MM
